@@ -47,6 +47,7 @@ def run(rep):
     quick = rep.tier == 'quick'
     g0 = json.load(open(__import__('os').path.join(C.BUILD, 'gen.json'))) if __import__('os').path.exists(__import__('os').path.join(C.BUILD, 'gen.json')) else None
     extra = matcher.incomplete_word_cases(g0, rep.seed, 25 if quick else 200) if g0 else []
+    extra += matcher.repeat_then_remove_cases(g0, rep.seed, 60) if g0 else []
     corp = matcher.Corpus(rep, per_type=40 if quick else 300, maxlen=14 if quick else 24, extra_cases=extra)
     try:
         m = corp.m
